@@ -15,6 +15,49 @@ CHECKS = {
         "reported length; the bookkeeping model is replayed against the real CCQR/GQR/SSPOR runs on every invocation.",
    ref="DESIGN.md §5 C01",
    note="LAPACK geqp3's pivot vector (QR) is a parameter, checked directly on each sample; numpy's Generator.permutation is the σ parameter."),
+ "C03": dict(
+   cat="proof", technique="Lean 4 theorems over an exact Gram/Schur model (greedy rule = max MGS residual) + ε-acceptance of real pivot traces",
+   text="qr_pick_max_mgs_residual proves that every pick of the exact model has the largest modified-Gram–Schmidt residual among "
+        "unranked sensors (with the orthogonal-residual characterisation, independence of leading rows, CCQR()/GQR() = QR in the model); "
+        "real QR/CCQR/GQR/SSPOR traces are replayed through the model's executable definitions with budget 1e-9·scale and per-step norm taps.",
+   ref="DESIGN.md §5 C03",
+   note="Floating point is not modelled: ties within the budget are accepted either way and traces after a (near-)zero exact pivot with non-zero float residual are not judged (counted); the Householder update itself is tied to the Schur step by the per-step norm tap, not by proof; LAPACK geqp3 trusted but judged on each sample."),
+ "C04": dict(
+   cat="proof", technique="Lean 4 theorems (exact decision of sqrt(a)-c >= sqrt(b)-d against Real.sqrt; greedy maximality; shift invariance) + replay of tapped CCQR traces",
+   text="ccqr_greedy_max (for every residual system and cost vector the pick maximises √resid²−cost over the reals), ccqr_shift_invariant, "
+        "ccqr_zero_eq_qr, ccqr_prohibitive, zero_pivot_removes_nothing; the real CCQR trace (tapped through qr_reflector) is replayed in the exact model.",
+   ref="DESIGN.md §5 C04",
+   note="Holds on /repo after fix commit d029e07 (zero-residual pivot). Rounding budgeted as for C03."),
+ "C05": dict(
+   cat="proof", technique="Lean 4 theorems for every residual system (counting/coincidence arguments over the masked greedy run) + bit-exact differential of the mask functions",
+   text="predetermined_split, maxN_count_le, exactN_count_eq hold for every residual system, region, N and feasible s (no bound), with concrete "
+        "non-vacuity instances; the three mask functions are compared bit for bit with the Lean masks and real GQR / SSPOR(GQR) runs are replayed.",
+   ref="DESIGN.md §5 C05",
+   note="Hypothesis GqrSetup.hA (the supplied ranking's first N entries are the model's own unconstrained picks) excludes inputs where LAPACK broke an exact tie differently: that input class is a listed known finding."),
+ "C06": dict(
+   cat="proof", technique="Lean 4 theorems (own-class maximality, inactive constraint = QR, allowance 0 = CCQR with prohibitive cost) + replay of real GQR traces",
+   text="gqr_own_class_max, gqr_inactive_eq_qr, gqr_s0_eq_ccqr_prohibitive for every residual system and option; own-class maximality and the two "
+        "reductions are judged on real runs along the exact model.",
+   ref="DESIGN.md §5 C06",
+   note="Reductions are compared on real runs only where every exact greedy choice is unique by more than the budget."),
+ "C14": dict(
+   cat="proof", technique="Lean 4 theorems about a state-machine model of SSPOR (setters last-wins, ranking untouched) + history differential vs the real object and a fresh-model oracle",
+   text="selected_eq_take, setN_preserves_ranking, setN_ok_iff, setN_rejected_unchanged, setters_last_wins, ctor_fit_eq_fit_set over all setter sequences; "
+        "the machine's observable projection is compared with the real SSPOR after every call and the final state with a fresh model built with the final value.",
+   ref="DESIGN.md §5 C14",
+   note="The optimizer ranking and basis entries are parameters of the machine (taken from the real run)."),
+ "C15": dict(
+   cat="proof", technique="Lean 4 theorems about the SSPOR state machine (fit reads settings only) + history differential over datasets of different shapes + from-scratch reference",
+   text="fit_is_reset_partial / fit_after_history_is_reset (a successful fit's outcome depends only on the settings), fit_preserves_settings, update_modes_prefix; "
+        "the Identity() default-mode freeze is proved as a witness on the model (identity_default_freezes) and listed as a known finding.",
+   ref="DESIGN.md §5 C15",
+   note="Holds on /repo after fix commits 63a46df, 8363b27. `_partial`: the settings relation compares the basis attribute n_basis_modes, which Identity() overwrites on its first fit (known finding F7)."),
+ "C16": dict(
+   cat="proof", technique="Lean 4 theorems about tailShuffle (lead and tail set independent of the rearrangement) + seed-pair differential on real SSPOR",
+   text="lead_seed_independent, lead_untouched, tail_set_seed_independent, same_seed_same_ranking, no_tail_seed_irrelevant for every rearrangement family; "
+        "real rankings across seeds are compared pairwise and against tailShuffle with numpy's permutation as the parameter.",
+   ref="DESIGN.md §5 C16",
+   note="numpy's Generator.permutation is a parameter (a permutation, a function of the seed)."),
 }
 NOT_YET = {}
 
